@@ -14,6 +14,12 @@ type Walker struct {
 	EnvAlone      bool           // keep walking when only environment actions remain (default: stop)
 	Env           []EnvAction    // environment actions (spec processes that are not archetypes), scheduled like procs
 	blockedAt     map[string]string
+	envDone       map[string]bool // environment actions that reported "finished"
+	abortCount    map[string]int  // consecutive aborts of a proc in the current state
+	lastFirst     map[string]uint64
+	// QuietAborts: a proc counts as blocked for the quiescence test only after this many consecutive aborts in
+	// the same state (an abort may depend on the choices it was given; retries step through the first choice point); default 6
+	QuietAborts int
 }
 
 // EnvAction is a step of the spec that no generated archetype performs (a plain PlusCal process of the
@@ -71,6 +77,9 @@ func (w *Walker) Next() (obs Obs, ok bool) {
 	}
 	nprocs := len(cands)
 	for _, e := range w.Env {
+		if w.envDone[e.Name] {
+			continue
+		}
 		wt := e.Weight
 		if wt == 0 {
 			wt = 100
@@ -100,6 +109,18 @@ func (w *Walker) Next() (obs Obs, ok bool) {
 		r -= c.wt
 	}
 	choices := []uint64{w.Rand() >> 8, w.Rand() >> 8, w.Rand() >> 8, w.Rand() >> 8, w.Rand() >> 8, w.Rand() >> 8}
+	if w.blockedAt[name] == stateText && w.abortCount[name] > 0 {
+		// retry in an unchanged state: step through the alternatives of the first choice point instead of
+		// drawing again (as the runtime's round-robin fairness counter does)
+		if w.lastFirst == nil {
+			w.lastFirst = map[string]uint64{}
+		}
+		choices[0] = w.lastFirst[name] + 1
+	}
+	if w.lastFirst == nil {
+		w.lastFirst = map[string]uint64{}
+	}
+	w.lastFirst[name] = choices[0]
 	isEnv := false
 	for _, e := range w.Env {
 		if e.Name == name {
@@ -110,10 +131,25 @@ func (w *Walker) Next() (obs Obs, ok bool) {
 	if !isEnv {
 		obs = w.Sys.Step(name, choices)
 	}
+	if isEnv && obs.Outcome == "finished" {
+		if w.envDone == nil {
+			w.envDone = map[string]bool{}
+		}
+		w.envDone[name] = true
+	}
+	if w.abortCount == nil {
+		w.abortCount = map[string]int{}
+	}
 	if obs.Outcome == "abort" {
+		if w.blockedAt[name] == stateText {
+			w.abortCount[name]++
+		} else {
+			w.abortCount[name] = 1
+		}
 		w.blockedAt[name] = stateText
 	} else {
 		delete(w.blockedAt, name)
+		w.abortCount[name] = 0
 	}
 	return obs, true
 }
@@ -121,13 +157,17 @@ func (w *Walker) Next() (obs Obs, ok bool) {
 // allBlocked: every live proc's last attempt aborted in the current spec state.
 func (w *Walker) allBlocked() bool {
 	stateText := Text(w.Sys.State.Snapshot())
+	need := w.QuietAborts
+	if need == 0 {
+		need = 6
+	}
 	for _, p := range w.Sys.procs {
-		if !p.finished && p.atGate && w.blockedAt[p.Name] != stateText {
+		if !p.finished && p.atGate && (w.blockedAt[p.Name] != stateText || w.abortCount[p.Name] < need) {
 			return false
 		}
 	}
 	for _, e := range w.Env {
-		if w.blockedAt[e.Name] != stateText {
+		if !w.envDone[e.Name] && (w.blockedAt[e.Name] != stateText || w.abortCount[e.Name] < need) {
 			return false
 		}
 	}
